@@ -89,3 +89,11 @@ def Top.isStream : Top → Bool
 
 def marshalRun (abort : Bool) (tb : MsgTables) (top : Top) (x : List Byte) : Run :=
   pump top.isStream x (runWalker abort tb top x)
+
+/-- the event stream a consumer of `Binary.marshal` sees: in warn mode a final depleted/superfluous problem is
+itself a `WarningEvent` -/
+def streamOf (abort : Bool) (r : Run) : List Event :=
+  r.events.map (·.2) ++ (if abort then [] else match r.outcome with
+    | .depleted => [.warning .depleted]
+    | .superfluous _ _ => [.warning .depleted]
+    | _ => [])
